@@ -633,8 +633,9 @@ def coq_stale_case(spec, spec2, built):
 
 
 # ------------------------------------------------- hand-made specs (witnesses)
-def hand_spec(name, types, blocks, targets, runs=None):
-    """types [(T, kind)], blocks [[(names, vtype, vals)]] in one file a.go, targets [(T, flags dict)]"""
+def hand_spec(name, types, blocks, targets, runs=None, cli=()):
+    """types [(T, kind)], blocks [[(names, vtype, vals)]] in one file a.go, targets [(T, flags dict)];
+    cli: further command-line flags (-v, -sep, ...)"""
     spec = eg.EnumPkg(name)
     spec.types = list(types)
     f = eg.GoFile("a.go")
@@ -646,7 +647,9 @@ def hand_spec(name, types, blocks, targets, runs=None):
     for T, fl in targets:
         full = {x: bool(fl.get(x)) for x in FLAGS}
         spec.targets.append(eg.Target(T, spec.kind_of(T), full))
-        spec.runs.append((["enum"] + ["-" + x for x in FLAGS if full[x]] + ["-type=" + T], [T]))
+        spec.runs.append((["enum"] + ["-" + x for x in FLAGS if full[x]] + list(cli) + ["-type=" + T], [T]))
+    for c in cli:
+        spec.features.add("cli" + c.split("=")[0])
     spec.features.add("hand-made")
     return spec
 
@@ -670,6 +673,41 @@ def witness_alias(name="walias"):
                      [[(["Red"], T, [lit(1)]), (["Crimson"], T, [lit(1)]), (["Blue"], T, [lit(2)]),
                        (["ColorFirst"], T, [("ref", "Red")])]],
                      [("Color", {"json": True})])
+
+
+def coincidence_specs():
+    """A fixed block, part of every C04 run: signed enums with a negative value whose LARGEST value happens to be
+    (number of constants - 1) -- a count/maximum shortcut ("the constants are 0..n-1") is wrong on them --, an
+    unsigned enum that really is 0..n-1, one with an alias, each generated with one of the common CLI flags
+    (-v, -verbose, -sep, -separate, -ver, -version), which must not change the output; the names are never in
+    alphabetical order when sorted by value."""
+    I = ("iota",)
+    res = []
+    T = ("ident", "Temp")
+    res.append(hand_spec("wco1", [("Temp", "int8")],
+                         [[(["TempLow"], T, [("sub", I, lit(1))]), (["TempMid"], None, []), (["_"], None, []),
+                           (["TempHigh"], None, [])]], [("Temp", {})], cli=["-v"]))                    # -1 0 2
+    T = ("ident", "Grade")
+    res.append(hand_spec("wco2", [("Grade", "int")],
+                         [[(["GradeZ"], T, [lit(-1)]), (["GradeM"], T, [lit(1)]), (["GradeA"], T, [lit(2)])]],
+                         [("Grade", {})], cli=["-verbose"]))                                             # -1 1 2
+    T = ("ident", "Span")
+    res.append(hand_spec("wco3", [("Span", "int64")],
+                         [[(["SpanWide"], T, [lit(-5)]), (["SpanTiny"], T, [lit(-1)]), (["SpanNone"], T, [lit(0)]),
+                           (["SpanHuge"], T, [lit(3)])]], [("Span", {})], cli=["-sep"]))                # -5 -1 0 3
+    T = ("ident", "Color")
+    res.append(hand_spec("wco4", [("Color", "uint8")],
+                         [[(["ColorRed"], T, [I]), (["ColorGreen"], None, []), (["ColorBlue"], None, [])]],
+                         [("Color", {})], cli=["-v", "-separate"]))                                      # 0 1 2, really sequential
+    T = ("ident", "Step")
+    res.append(hand_spec("wco5", [("Step", "int16")],
+                         [[(["StepUp"], T, [lit(-2)]), (["StepSame"], T, [lit(0)]), (["StepAlso"], T, [("ref", "StepSame")]),
+                           (["StepDown"], T, [lit(2)])]], [("Step", {})], cli=["-ver=t9"]))              # -2 0 0 2: 3 distinct, max 2
+    T = ("ident", "Mode")
+    res.append(hand_spec("wco6", [("Mode", "int32")],
+                         [[(["ModeZulu"], T, [lit(-3)]), (["ModeYank"], T, [lit(-2)]), (["ModeAlfa"], T, [lit(2)])]],
+                         [("Mode", {})], cli=["-version=t8", "-verbose"]))                                # -3 -2 2
+    return res
 
 
 def witness_big(name="wbig"):
